@@ -84,11 +84,20 @@ func stripPos(m string) string {
 	return m
 }
 
+var reIndexBounds = regexp.MustCompile(`index (\d+) out of bounds \[0:(\d+)\]`)
+var reZeroShift = regexp.MustCompile(`\b0 << [5-9][0-9][0-9]\b`)
+
 // knownSignature maps a disagreement to the name of a recorded finding.
 func knownSignature(dir, src, scriggoMsg, goMsg string) string {
 	switch {
 	case dir == "rejects-well-typed" && scriggoMsg == "division by zero":
 		return "float-div-const-zero"
+	case dir == "accepts-ill-typed" && reIndexBounds.MatchString(goMsg):
+		if m := reIndexBounds.FindStringSubmatch(goMsg); m[1] == m[2] {
+			return "const-index-eq-len-accepted"
+		}
+	case dir == "rejects-well-typed" && strings.Contains(scriggoMsg, "shift count too large") && reZeroShift.MatchString(src):
+		return "const-zero-shift-count-512"
 	}
 	return ""
 }
@@ -137,11 +146,12 @@ func judge(c *Ctx, src string, std bool, origin string, extra map[string]string)
 // reproducers of the recorded findings: the sweep replays them first and
 // emits their signature while they still fail.
 var reproducers = []struct{ sig, src string }{
-	{"const-group-type-carried", "package main\n\nconst (\n\tn uint8 = 1\n\te = 1 << 63\n)\n\nfunc main() {\n\t_ = n\n\t_ = uint64(e)\n}\n"},
 	{"float-div-const-zero", "package main\n\nfunc main() {\n\tf := 1.5\n\t_ = f / 0.0\n}\n"},
-	{"typed-const-keeps-untyped-repr", "package main\n\nfunc main() {\n\tconst c int = 2.0\n\t_ = c % 3\n}\n"},
-	{"const-conversion-keeps-int-repr", "package main\n\nfunc main() {\n\t_ = float64(3) % 2\n}\n"},
-	{"float-const-to-unsigned-not-integral", "package main\n\nfunc main() {\n\tvar x uint8 = 0.5 + 1.0\n\t_ = x\n}\n"},
+	{"const-index-eq-len-accepted", "package main\n\nfunc main() {\n\tvar a [3]int\n\t_ = a[3]\n}\n"},
+	{"const-shift-count-over-1074", "package main\n\nfunc main() {\n\t_ = 4 >> 6400\n}\n"},
+	{"const-zero-shift-count-512", "package main\n\nconst c = 0 << 600\n\nfunc main() {\n\t_ = c\n}\n"},
+	{"labeled-branch-not-implemented", "package main\n\nfunc main() {\nouter:\n\tfor i := 0; i < 3; i++ {\n\t\tfor j := 0; j < 3; j++ {\n\t\t\tcontinue outer\n\t\t}\n\t}\n}\n"},
+	{"labeled-branch-not-implemented", "package main\n\nfunc main() {\n\tvar m map[string]int\nouter:\n\tfor k := range m {\n\t\tfor range m {\n\t\t\t_ = k\n\t\t\tbreak outer\n\t\t}\n\t}\n}\n"},
 }
 
 // regressions: inputs of the defects repaired by fix commits of this work
@@ -149,6 +159,10 @@ var reproducers = []struct{ sig, src string }{
 // program on every run, in this order (the second one is only rejected when
 // the first one has polluted the universe constants).
 var regressions = []string{
+	"package main\n\nfunc main() {\n\tvar x uint8 = 0.5 + 1.0\n\t_ = x\n}\n", // float-const-to-unsigned-not-integral (repaired by the consts package)
+	"package main\n\nfunc main() {\n\t_ = float64(3) % 2\n}\n", // const-conversion-keeps-int-repr (repaired by the consts package)
+	"package main\n\nfunc main() {\n\tconst c int = 2.0\n\t_ = c % 3\n}\n", // typed-const-keeps-untyped-repr (repaired by the consts package)
+	"package main\n\nconst (\n\tn uint8 = 1\n\te = 1 << 63\n)\n\nfunc main() {\n\t_ = n\n\t_ = uint64(e)\n}\n", // const-group-type-carried (repaired by the consts package)
 	"package main\n\ntype T3 bool\n\nfunc main() {\n\tvar x T3 = true\n\t_ = x\n}\n",
 	"package main\n\nfunc main() {\n\t_ = (true != false)\n\t_ = true && false\n}\n",
 	"package main\n\nfunc f() int { return 1 }\n\nfunc main() {\n\tx := f(), 1\n\t_ = x\n}\n",
@@ -161,6 +175,12 @@ var regressions = []string{
 	"package main\n\nfunc main() {\n\tx := 2.0 << 5\n\tvar y float64 = x\n\t_ = y\n}\n",
 }
 
+// regressionsStd: like regressions, judged with the standard library packages.
+var regressionsStd = []string{
+	"package main\n\nimport . \"strings\"\nimport . \"bytes\"\n\nfunc main() {\n\t_ = ToUpper(\"a\")\n\t_ = NewBuffer(nil)\n}\n",
+	"package main\n\nimport . \"strings\"\nimport . \"strconv\"\n\nfunc main() {\n\t_ = ToUpper(Itoa(1))\n}\n",
+}
+
 func init() {
 	Register("probe", func(c *Ctx) {
 		b, err := os.ReadFile(c.Arg)
@@ -171,6 +191,19 @@ func init() {
 		for _, src := range splitPrograms(string(b)) {
 			r := scriggoBuild(src, nativePkgs)
 			ok, msg, _ := goTypes(src, false, "")
+			fmt.Fprintf(c.Out, "scriggo=%s %q\ngotypes=%v %q\n\n", r.Verdict, r.Msg, ok, msg)
+		}
+	})
+
+	Register("probestd", func(c *Ctx) {
+		b, err := os.ReadFile(c.Arg)
+		if err != nil {
+			fmt.Fprintln(os.Stderr, err)
+			os.Exit(2)
+		}
+		for _, src := range splitPrograms(string(b)) {
+			r := scriggoBuild(src, corpusPkgs)
+			ok, msg, _ := goTypes(src, true, "")
 			fmt.Fprintf(c.Out, "scriggo=%s %q\ngotypes=%v %q\n\n", r.Verdict, r.Msg, ok, msg)
 		}
 	})
@@ -261,6 +294,19 @@ func init() {
 		for i, src := range regressions {
 			judge(c, src, false, fmt.Sprintf("regression:%d", i), nil)
 		}
+		for i, src := range regressionsStd {
+			judge(c, src, true, fmt.Sprintf("regression-std:%d", i), nil)
+		}
+		ext := func(name, src string) {
+			c.Count("extgen")
+			_, goOK := judge(c, src, false, "extgen:"+name, nil)
+			if !goOK {
+				c.Count("nontrivial")
+			}
+		}
+		cmpPrograms(ext)
+		termPrograms(ext)
+		miscPrograms(ext)
 		perKind := map[string][2]int{}
 		seen := map[string]bool{}
 		samples := 0
